@@ -509,6 +509,13 @@ Definition py_read (c : conf) (r : option rep) (ch : nat) : option conf :=
           Some (mk (PExec GoneExc) (outs c) SDead (p2d c) (d2p c) (nxt c))
       | _ => None
       end
+  | Some RSigterm =>
+      (* chuck_TermInterrupt(ebp): the daemon announced that it is terminating; python probes and
+         reaps it (is_responsive/waitpid) and the operation fails one way or another: cleanup *)
+      match py c with
+      | PRead1 _ _ _ | PCons _ _ _ _ | PRd _ | PHand _ _ | PDie => stay PErr
+      | _ => None
+      end
   | Some RDying =>
       match py c with
       | PRead1 _ _ _ | PCons _ _ _ _ | PRd _ | PHand _ _ | PDie => stay PDie
@@ -575,6 +582,7 @@ Definition stepf (c : conf) (l : label) : option conf :=
       | PExec Fail, EExc => Some (set_py c PIdle)
       | PExec Err, EExc => Some (set_py c PErr)
       | PExec GoneExc, EExc => Some (set_py c PGone)
+      | PErr, _ => Some c            (* the operation ends after its cleanup *)
       | _, _ => None
       end
   | LR r ch =>
